@@ -307,6 +307,7 @@ class SymCtx:
         """an instance of a repo class without running its constructor (frame conditions are set by the harness)"""
         o = I.IObj(cls)
         o.attrs.update(attrs)
+        o.allocated = True
         return o
 
     def none_is(self, v):
@@ -481,8 +482,8 @@ class Explorer:
                 ctx.vcs.append(VC("no-unexpected-exception", {"sat": "sat", "unsat": "unsat"}.get(res, "unknown"), secs, be,
                                   self.path_counter, m, f"{type(r.exc).__name__}: {r.exc}"))
             except SymError as e:
-                status = "out-of-subset"
-                self.errors.append(("out-of-subset", str(e)))
+                status = "harness-incomplete" if isinstance(e, I.HarnessIncomplete) else "out-of-subset"
+                self.errors.append((status, str(e)))
             except RecursionError:
                 status = "out-of-subset"
                 self.errors.append(("out-of-subset", "host recursion limit"))
@@ -579,6 +580,13 @@ class NativeCtx:
         o = object.__new__(cls)
         for k, v in attrs.items():
             setattr(o, k, v)
+        self._allocated = getattr(self, "_allocated", set()) | {cls.__name__}
+        for k, v in _ctor_defaults(cls).items():        # same rule as Interp._allocated_default
+            if k not in attrs:
+                try:
+                    setattr(o, k, v())
+                except Exception:      # noqa
+                    pass
         return o
 
     def none_is(self, v):
@@ -675,6 +683,45 @@ def _nb(f):
     return bool(f)
 
 
+def _ctor_defaults(cls):
+    """attribute -> thunk for the state-free defaults the real constructor would have set (dataclass field defaults / factories,
+    top-level `self.x = <empty or constant literal>` in __post_init__ / __init__)"""
+    import ast
+    import dataclasses
+    import inspect
+    import textwrap
+    out = {}
+    if dataclasses.is_dataclass(cls):
+        for f in dataclasses.fields(cls):
+            if f.default is not dataclasses.MISSING:
+                out[f.name] = (lambda d=f.default: d)
+            elif f.default_factory is not dataclasses.MISSING:
+                out[f.name] = f.default_factory
+    for ctor in ("__post_init__", "__init__"):
+        fn = getattr(cls, ctor, None)
+        if fn is None or not inspect.isfunction(fn):
+            continue
+        try:
+            node = ast.parse(textwrap.dedent(inspect.getsource(fn))).body[0]
+        except Exception:      # noqa
+            continue
+        selfname = node.args.args[0].arg if node.args.args else "self"
+        for st in node.body:
+            if isinstance(st, ast.Assign) and len(st.targets) == 1:
+                t, val = st.targets[0], st.value
+            elif isinstance(st, ast.AnnAssign) and st.value is not None:
+                t, val = st.target, st.value
+            else:
+                continue
+            if not (isinstance(t, ast.Attribute) and isinstance(t.value, ast.Name) and t.value.id == selfname):
+                continue
+            state_free = (isinstance(val, ast.Constant) or (isinstance(val, (ast.Dict, ast.List, ast.Set, ast.Tuple)) and not (getattr(val, "keys", None) or getattr(val, "elts", None)))
+                          or (isinstance(val, ast.Call) and isinstance(val.func, ast.Name) and val.func.id in ("dict", "list", "set") and not val.args and not val.keywords))
+            if state_free and t.attr not in out:
+                out[t.attr] = (lambda v=val: eval(compile(ast.Expression(v), "<default>", "eval"), {}))
+    return out
+
+
 def run_native(harness, values, apply_stubs=False):
     """returns (status, ctx) with status in ok / fail / skip / raised"""
     ctx = NativeCtx(values, apply_stubs=apply_stubs)
@@ -683,6 +730,10 @@ def run_native(harness, values, apply_stubs=False):
     except NativeSkip:
         return "skip", ctx
     except Exception as e:      # the real code raised something the harness does not expect
+        import re as _re
+        m = _re.match(r"'(\w+)' object has no attribute '(\w+)'", str(e)) if isinstance(e, AttributeError) else None
+        if m and m.group(1) in getattr(ctx, "_allocated", ()):
+            return "skip", ctx          # harness-incomplete: an allocated object lacks an attribute the code reads (not a violation)
         ctx.unexpected = e
         ctx.failures.append("no-unexpected-exception")
         return "raised", ctx
